@@ -112,6 +112,240 @@ def functor_obligations(mir, tagname):
     return out
 
 
+def _promoted_value(mir, fn_suffix, idx):
+    """the value a `const <fn>::promoted[idx]` body assigns: ('int', n) | ('atom', index) | ('name', path)"""
+    for i, l in enumerate(mir.lines):
+        if l.startswith("const ") and ("%s::promoted[%d]:" % (fn_suffix, idx)) in l:
+            for l2 in mir.lines[i:i + 12]:
+                m = re.match(r"\s*_1 = atom_table::Atom \{ index: const (\d+)_u64 \};", l2)
+                if m:
+                    return ("atom", int(m.group(1)))
+                m = re.match(r"\s*_1 = const (-?\d+)_[iu]\w+;", l2)
+                if m:
+                    return ("int", int(m.group(1)))
+                m = re.match(r"\s*_1 = const ([\w:]+);", l2)
+                if m:
+                    return ("name", m.group(1))
+    return None
+
+
+def _const_usize(src_rel, name):
+    import os
+    from ..common import REPO
+    txt = open(os.path.join(REPO, src_rel)).read()
+    m = re.search(r"pub const %s: usize = (\d+);" % name, txt)
+    return int(m.group(1)) if m else None
+
+
+def _tag_of(t):
+    """HeapCellValue::build_with(tag, v) -> (tag name, v)"""
+    if t[0] == "app" and t[1].endswith("HeapCellValue::build_with") and t[2][0][0] == "agg":
+        return t[2][0][1].split("::")[-1], t[2][1]
+    return None, None
+
+
+def fabricate_obligations(mir, tagname):
+    """functor/3 in construction mode: MachineState::try_functor_fabricate_struct(name, arity, r) and its two
+    writer closures, every path; plus the guards on every path of try_functor that reaches it.
+      - h = heap.cell_len() is read before heap.reserve(arity + 1); a failed reservation returns the error
+        before anything is written or bound;
+      - '.'/2 (and only that: name == '.' /\ arity == 2) writes the two unbound cells Var(h), Var(h+1) and binds
+        r to Lis(h); everything else writes the functor cell name/arity at h, then for i in 0..arity the
+        cell Var(h + i + 1), which is the (i+1)-th cell after the functor cell, i.e. a self-reference (an
+        unbound variable, distinct per argument); r is bound to Str(h), for arity 0 to Var(h) (the atom);
+      - the number of cells pushed never exceeds the reservation: 1 + arity = reserve's argument, 2 <= it
+        when arity = 2;
+      - in try_functor every path to the call has passed !(N > MAX_ARITY) and !(N < 0) on the arity's Number,
+        and MAX_ARITY fits the functor cell's 8-bit arity field (the `as u8` is lossless).
+    Returns (structural, queries, meta)."""
+    st, queries, meta = [], [], []
+    ns = [n for n in mir.index if n.endswith("::try_functor_fabricate_struct")]
+    if len(ns) != 1:
+        raise core.Unsupported("try_functor_fabricate_struct: %s" % ns)
+    fn = ns[0]
+    body = mir.body(fn)
+    if util.back_edge_targets(body):
+        raise core.Unsupported("try_functor_fabricate_struct has a loop of its own")
+    paths = core.Executor(body, max_depth=300, max_paths=400).run("bb0")
+    arity = ("s", "_3")
+    cl_of = {}
+    lis_f, other_f = [], []
+    enc = Encoder()
+    ok_order = ok_err = ok_bind = ok_res = ok_caps = True
+    res_arg = None
+    n_ok = 0
+    for p in paths:
+        cs = [e for e in p.events if e[0] == "call"]
+        names = [e[1].split("::")[-1] for e in cs]
+        if "cell_len" not in names or "reserve" not in names or names.index("cell_len") > names.index("reserve"):
+            ok_order = False
+            continue
+        h = cs[names.index("cell_len")][3]
+        rv = cs[names.index("reserve")]
+        res_arg = rv[2][1]
+        ww = [e for e in cs if e[1].endswith("::write_with")]
+        bd = [e for e in cs if e[1].endswith("::bind")]
+        failed = any(c[0][0] == "disc" and c[0][1][0] == "app" and c[0][1][1].endswith("::branch") and
+                     c[1] == "==" and c[2] == 1 for c in p.conds)
+        if failed:
+            ok_err = ok_err and not ww and not bd and not any(n == "build_with" for n in names)
+            continue
+        n_ok += 1
+        if len(ww) != 1 or len(bd) != 1 or ww[0][2][1][0] != "agg":
+            ok_bind = False
+            continue
+        clos = ww[0][2][1]
+        caps = [p.env.get(c[1], c) if c[0] == "ref" and c[1] in p.env else c for c in clos[2]]
+        m = re.search(r"closure@([^}]*)", clos[1])
+        tag, val = _tag_of(bd[0][2][3])
+        ok_bind = ok_bind and bd[0][2][2] == ("s", "_4")
+        ok_res = ok_res and val == ("op", "cast:IntToInt", (h,))
+        # the condition of this path on (name == '.', arity)
+        f = enc.conj([c for c in p.conds if not (c[0][0] == "disc")], boolish=lambda t: t[0] == "app" and t[1].endswith("::eq"))
+        eqs = [c[0] for c in p.conds if c[0][0] == "app" and c[0][1].endswith("PartialEq>::eq")]
+        if len(clos[2]) == 1:
+            ok_caps = ok_caps and caps == [h]
+            ok_res = ok_res and tag == "Lis"
+            lis_f.append(f)
+            cl_of["lis"] = m.group(1) if m else None
+        else:
+            ok_caps = ok_caps and len(caps) == 3 and clos[2][0] == ("ref", "_2.0") and clos[2][1] == ("ref", "_3") and caps[2] == h
+            zero = any(c[0] == ("op", "Eq", (arity, ("c", 0))) and ((c[1] == "not_in" and 0 in c[2]) or (c[1] == "==" and c[2] == 1))
+                       for c in p.conds)
+            ok_res = ok_res and tag == ("Var" if zero else "Str")
+            other_f.append(f)
+            cl_of["str"] = m.group(1) if m else None
+    st.append({"obligation": "functor/3 construction: the heap top h is read before reserve(arity + 1)", "ok": ok_order and n_ok > 0})
+    st.append({"obligation": "functor/3 construction: a failed reservation returns before anything is written or bound", "ok": ok_err})
+    st.append({"obligation": "functor/3 construction: exactly one writer closure runs and T (the Ref passed in) is bound once", "ok": ok_bind})
+    st.append({"obligation": "functor/3 construction: T is bound to Lis(h) for '.'/2, Str(h) for arity > 0, Var(h) for arity 0", "ok": ok_res})
+    st.append({"obligation": "functor/3 construction: the writer closures capture this call's h, name and arity", "ok": ok_caps})
+    # which name is compared: promoted[0] must be '.'
+    pv = None
+    for p in paths:
+        for c in p.conds:
+            if c[0][0] == "app" and c[0][1].endswith("PartialEq>::eq") and c[0][2][1][0] == "k":
+                mm = re.search(r"promoted\[(\d+)\]", c[0][2][1][1])
+                pv = _promoted_value(mir, "try_functor_fabricate_struct", int(mm.group(1))) if mm else None
+                eq_term = c[0]
+    st.append({"obligation": "functor/3 construction: the list case compares the name with the atom '.'",
+               "ok": bool(pv and pv[0] == "atom" and core.atom_text(pv[1]) == "."), "why": str(pv)})
+    if pv and lis_f and other_f:
+        iseq = enc.boolean(eq_term)
+        a = enc.bv(arity)
+        spec = "(and %s (= %s #x0000000000000002))" % (iseq, a)
+        queries.append(enc.decls() + "\n(assert (not (and (= (or false %s) %s) (= (or false %s) (not %s)))))" % (
+            " ".join(lis_f), spec, " ".join(other_f), spec))
+        meta.append({"obligation": "functor/3 construction: a list cell pair is built <=> name = '.' and arity = 2, a functor block otherwise"})
+    # closures
+    cls = [n for n in mir.index if n.startswith(fn + "::{closure#")]
+    pushes_lis = pushes_hdr = None
+    for cn in cls:
+        b2 = mir.body(cn)
+        heads = util.back_edge_targets(b2)
+        if not heads:
+            ps = core.Executor(b2, max_depth=200, max_paths=50).run("bb0")
+            if len(ps) != 1:
+                st.append({"obligation": "functor/3 construction: the '.'/2 writer is straight-line", "ok": None})
+                continue
+            pc = [e for e in ps[0].events if e[0] == "call" and e[1].endswith("::push_cell")]
+            hh = ("proj", ("proj", ("s", "_1"), ".0"), "*")
+            cells = [_tag_of(e[2][1]) for e in pc]
+            e2 = Encoder()
+            okc = len(cells) == 2 and all(t == "Var" for t, _ in cells)
+            st.append({"obligation": "functor/3 construction ('.'/2): two cells are written, both unbound-variable cells", "ok": okc})
+            if okc:
+                pushes_lis = 2
+                queries.append("%s\n(assert (or (not (= %s %s)) (not (= %s (bvadd %s #x0000000000000001)))))" % (
+                    "PLACEHOLDER", e2.bv(cells[0][1]), e2.bv(hh), e2.bv(cells[1][1]), e2.bv(hh)))
+                queries[-1] = queries[-1].replace("PLACEHOLDER", e2.decls())
+                meta.append({"obligation": "functor/3 construction ('.'/2): the k-th cell written (k = 0, 1) is Var(h + k), a self-reference"})
+        else:
+            if len(heads) != 1:
+                st.append({"obligation": "functor/3 construction: the functor-block writer has one loop", "ok": None})
+                continue
+            ex = lambda entry: core.Executor(b2, stop_blocks=tuple(heads), max_depth=200, max_paths=50).run(entry)
+            pre = ex("bb0")
+            loop = ex(heads[0])
+            nm, ar, hh = [("proj", ("proj", ("s", "_1"), ".%d" % k), "*") for k in range(3)]
+            okh = len(pre) == 1
+            if okh:
+                pc = [e for e in pre[0].events if e[0] == "call" and e[1].endswith("::push_cell")]
+                okh = len(pc) == 1
+                if okh:
+                    c0 = pc[0][2][1]
+                    okh = (c0[0] == "app" and c0[1].endswith("HeapCellValue::from_bytes") and c0[2][0][0] == "app" and
+                           c0[2][0][1].endswith("AtomCell::into_bytes") and c0[2][0][2][0][0] == "app" and
+                           c0[2][0][2][0][1].endswith("AtomCell::build_with") and
+                           c0[2][0][2][0][2] == (nm, ("op", "cast:IntToInt", (ar,))))
+                rg = [e for e in pre[0].events if e[0] == "call" and e[1].endswith("IntoIterator>::into_iter")]
+                okr = len(rg) == 1 and rg[0][2][0] == ("agg", "struct:std::ops::Range::<usize>", (("c", 0), ar))
+            st.append({"obligation": "functor/3 construction: the first cell written is the functor cell name/arity", "ok": bool(okh)})
+            st.append({"obligation": "functor/3 construction: the argument cells are written for i in 0..arity", "ok": bool(okh and okr)})
+            done = [q for q in loop if q.end == "return"]
+            again = [q for q in loop if q.end == heads[0]]
+            okl = len(done) == 1 and len(again) == 1 and len(loop) == 2 and \
+                not [e for e in done[0].events if e[0] == "call" and e[1].endswith("::push_cell")]
+            if okl:
+                q = again[0]
+                nx = [e for e in q.events if e[0] == "call" and e[1].endswith("Iterator>::next")]
+                pc = [e for e in q.events if e[0] == "call" and e[1].endswith("::push_cell")]
+                okl = len(nx) == 1 and len(pc) == 1 and _tag_of(pc[0][2][1])[0] == "Var"
+                if okl:
+                    i = ("proj", ("proj", nx[0][3], " as Some"), ".0")
+                    e2 = Encoder()
+                    v = e2.bv(_tag_of(pc[0][2][1])[1])
+                    # the functor cell is cell h; iteration i writes the (1 + i)-th cell after it
+                    queries.append("%s\n(assert (not (= %s (bvadd %s (bvadd #x0000000000000001 %s)))))" % (
+                        "PLACEHOLDER", v, e2.bv(hh), e2.bv(i)))
+                    queries[-1] = queries[-1].replace("PLACEHOLDER", e2.decls())
+                    meta.append({"obligation": "functor/3 construction: iteration i writes Var(h + 1 + i), the address the cell "
+                                 "itself gets (a fresh unbound variable per argument)"})
+                    pushes_hdr = 1
+            st.append({"obligation": "functor/3 construction: each iteration writes exactly one unbound-variable cell, "
+                       "the exit writes nothing", "ok": bool(okl)})
+    if res_arg is not None:
+        e3 = Encoder()
+        a = e3.bv(arity)
+        r = e3.bv(res_arg)
+        if pushes_hdr:
+            queries.append(e3.decls() + "\n(assert (not (= %s (bvadd #x0000000000000001 %s))))" % (r, a))
+            meta.append({"obligation": "functor/3 construction: cells written (1 + arity) = cells reserved"})
+        if pushes_lis:
+            queries.append(e3.decls() + "\n(assert (and (= %s #x0000000000000002) (bvult %s #x%016x)))" % (a, r, pushes_lis))
+            meta.append({"obligation": "functor/3 construction ('.'/2): the two cells written fit the reservation"})
+    # guards in try_functor
+    tf = [n for n in mir.index if n.endswith("::try_functor")][0]
+    b3 = mir.body(tf)
+    ps = core.Executor(b3, stop_blocks=tuple(util.back_edge_targets(b3)), max_depth=600, max_paths=8000).run("bb0")
+    max_arity = _const_usize("src/parser/ast.rs", "MAX_ARITY")
+    okg, nreach, why = True, 0, ""
+    for p in ps:
+        fc = [e for e in p.events if e[0] == "call" and e[1].endswith("try_functor_fabricate_struct")]
+        if not fc:
+            continue
+        nreach += 1
+        seen = {}
+        for e in p.events:
+            if e[0] == "call" and re.search(r"Number as PartialOrd<usize>>::(gt|lt)$", e[1]) and e[2][1][0] == "k":
+                mm = re.search(r"promoted\[(\d+)\]", e[2][1][1])
+                pvv = _promoted_value(mir, "::try_functor", int(mm.group(1))) if mm else None
+                held = any(c[0] == e[3] and c[1] == "==" and c[2] == 0 for c in p.conds)
+                if held and e[3][3] < fc[0][3][3]:
+                    seen[e[1][-2:]] = (e[2][0], pvv)
+        g, l = seen.get("gt"), seen.get("lt")
+        good = bool(g and l and g[0] == l[0] and l[1] == ("int", 0) and
+                    (g[1] == ("name", "parser::ast::MAX_ARITY") or (g[1] and g[1][0] == "int" and g[1][1] <= 255)))
+        if not good:
+            okg = False
+            why = "gt %s lt %s" % (g, l)
+    st.append({"obligation": "functor/3 construction: every path to the fabrication has passed !(N > MAX_ARITY) and !(N < 0) "
+               "on the same Number (%d paths)" % nreach, "ok": okg and nreach > 0, "why": why})
+    st.append({"obligation": "functor/3 construction: MAX_ARITY fits the functor cell's 8-bit arity field",
+               "ok": max_arity is not None and max_arity <= 255, "why": str(max_arity)})
+    return st, queries, meta
+
+
 def run(thorough=False):
     queries, meta, structural = [], [], []
     try:
@@ -248,13 +482,18 @@ def run(thorough=False):
         if not queries:
             raise core.Unsupported("no Str / Lis arm recognised")
         structural += functor_obligations(mir, tagname)
+        st2, q2, m2 = fabricate_obligations(mir, tagname)
+        structural += st2
+        queries += q2
+        meta += m2
     except Exception as e:  # noqa
         log("  mirsmt C23: cannot analyse (%s)" % e)
         return {"exit": EXIT_INCONCLUSIVE, "mirsmt_error": str(e)}
     br = smt.check_batch(queries, thorough=thorough)
     res = {"evaluations": len(queries) + len(structural), "distinct_nontrivial": 0, "samples": [],
            "mirsmt_regions": ["MachineState::try_arg (%d paths)" % len(paths), "MachineState::try_functor",
-                              "MachineState::try_functor_unify_components"], "mirsmt_seconds": br["z3_s"]}
+                              "MachineState::try_functor_unify_components",
+                              "MachineState::try_functor_fabricate_struct and its two writer closures"], "mirsmt_seconds": br["z3_s"]}
     if br["results"] is None or (thorough and br["agree"] is False):
         res["exit"] = EXIT_INCONCLUSIVE
         return res
